@@ -305,14 +305,15 @@ func (s *sys) Apply(op string) error {
 
 func (s *sys) fingerprint(hm *hostModel, gotHealthy bool) string {
 	switch {
+	case gotHealthy && hm.flipped:
+		// decided by the latest Fails checks alone, however the host got here
+		return "host still reported healthy after its last Fails checks failed"
 	case hm.rejoin == "sync":
 		return "host that left and rejoined is not treated as a new healthy host (a list of 0 or >=2 hosts was filtered during its absence)"
 	case hm.rejoin == "single":
 		return "host that left and rejoined is not treated as a new healthy host (only single-host lists were filtered during its absence)"
 	case hm.fresh:
 		return "host listed for the first time does not start healthy"
-	case gotHealthy && hm.flipped:
-		return "host still reported healthy after its last Fails checks failed"
 	case gotHealthy:
 		return "host reported healthy again before Passes consecutive passed checks"
 	case hm.flipped:
